@@ -39,3 +39,44 @@ PROPS['C12'] = dict(
                  'Bgbit<=30 so that Bg fits its int32_t field'],
     jobs=lambda tier, seed: J('c12.cpp', 'optim', n=16) + (J('c12.cpp', 'debug', n=16) if tier == 'thorough' else J('c12.cpp', 'debug', n=12, args=['layouts=default'])),
 )
+
+# ------------------------------------------------------------------------------------------------ C11
+def _c11(tier, seed):
+    jobs = J('c11.cpp', 'optim', n=14, extra_src=['guardalloc.cpp'], env={'VF_GUARD': 'after'}, crash_is_violation=True)
+    jobs += J('c11.cpp', 'debug', n=6 if tier == 'quick' else 16, extra_src=['guardalloc.cpp'], env={'VF_GUARD': 'before'}, crash_is_violation=True,
+              args=(['nbasis=32'] if tier == 'quick' else ['nbasis=256']))
+    return jobs
+PROPS['C11'] = dict(
+    level='exploration',
+    rule='cases = (N, a) for the three monomial routines on 7 contents; (N) group law X^a X^b; (N, i) basis rows: all pairs (X^i, c X^j) '
+         'through Naive/Karatsuba/AddMulR/SubMulR; (N, content_a, content_b) full vectors; (N, c1, c2) coefficient-wise ops x 9 scalars. '
+         'Non-trivial = every case (all operands non-zero); oracle = explicit-index / wrapping 64-bit exact product',
+    bounds={'quick': 'N in {1..2048}: every a in [0,2N); all basis pairs for N<=128 (optim) / N<=32 (debug), wrap-boundary j set above; 36 full-vector pairs; guard pages after (optim) / before (debug)',
+            'thorough': 'all basis pairs for N<=512 (optim) / N<=256 (debug); the rest as quick'},
+    assumptions=['the routines are bilinear over Z/2^32 (ring operations only, no data-dependent control flow): agreement on all basis pairs is agreement on all inputs; extreme and seeded full vectors are added to notice a change that breaks that premise',
+                 'polynomial code is shared by the five back-ends; run on one'],
+    jobs=_c11,
+)
+
+# ------------------------------------------------------------------------------------------------ C14
+def _c14(tier, seed):
+    g = dict(extra_src=['guardalloc.cpp'])
+    jobs = J('c14.cpp', 'optim', n=8, env={'VF_GUARD': 'after'}, **g)
+    jobs += J('c14.cpp', 'optim', n=4, env={'VF_GUARD': 'before'}, **g)
+    jobs += J('c14.cpp', 'debug', n=4, env={'VF_GUARD': 'after'}, **g)
+    jobs += J('c14.cpp', 'asan', n=6)
+    if tier == 'thorough':
+        jobs += J('c14.cpp', 'asan-debug', n=6)
+        jobs += J('c14.cpp', 'optim', backend='fftw', n=4, env={'VF_GUARD': 'after'}, **g)
+    return jobs
+PROPS['C14'] = dict(
+    level='exploration',
+    rule='cases = (n, op, p, aliasing, content1, content2) for 8 LWE ops, n in 1..40 + {500,630,1023,1024,1025,2048}; (N,k,op,variant,content) for 10 TLWE ops, '
+         'N in 2..1024, k in 1..3 (all a in [0,2N) for N<=64); (N,k,content,j) extraction for every j. Non-trivial = n not a multiple of 8, or n<8, or p not in {0,1}; all TLWE/extraction cases. '
+         'Oracle: coefficient arrays and phases (3 keys) equal exact wrapping arithmetic; variance annotation; guard pages after/before every heap block (sees the inline-asm accesses ASan cannot)',
+    bounds={'quick': 'full case product on optim (guard after, guard before), debug (guard after), asan', 'thorough': '+ asan-debug, + fftw back-end'},
+    assumptions=['LWE/TLWE linear code is in the core objects shared by all back-ends', 'variance annotation checked for |p| < 2^15 as the property states'],
+    jobs=_c14,
+)
+
+NOT_YET = {}
